@@ -38,6 +38,18 @@ fn pairs(r: &mut Rng, sz: &Sizes) -> Vec<(JsonShape, JsonShape)> {
             }
         }
     }
+    // the depth-2 universe (every container of width <= 2 over fifteen depth-1 shapes, both flags: 519 shapes) as
+    // ordered pairs: all of them in the thorough tier, one of two residue classes (chosen by the seed) in the quick tier
+    let med = medium_shapes();
+    let k = if sz.pairs > 10_000 { 1 } else { 2 };
+    let off = r.below(k);
+    for (i, a) in med.iter().enumerate() {
+        for (j, b) in med.iter().enumerate() {
+            if (i * 31 + j) % k == off {
+                out.push((a.clone(), b.clone()));
+            }
+        }
+    }
     let p = pool(r, 200);
     for _ in 0..sz.pairs {
         let a = r.pick(&p).clone();
@@ -259,11 +271,47 @@ fn docs(r: &mut Rng, sz: &Sizes) -> Vec<J> {
     out.extend(conflict_docs());
     out.extend(width_docs());
     out.extend(near_equal_docs());
+    out.extend(small_scope_docs());
     for i in 0..sz.docs {
         let depth = i % 5;
         out.push(rand_doc(r, depth, DKEYS));
     }
     out
+}
+
+/// SMALL SCOPE, exhaustively: every array of 1-3 elements over twelve base documents, every object with members
+/// a / b over them, every array of 2-3 objects over eight small objects, every array of two 2-element arrays
+pub fn small_scope_docs() -> Vec<J> {
+    let base = ["null", "1", "\"s\"", "true", "[]", "[1]", "[null]", "{}", "{\"a\":1}", "{\"a\":null}", "{\"b\":\"x\"}", "[1,\"x\"]"];
+    let objs = ["{}", "{\"a\":1}", "{\"a\":null}", "{\"a\":\"s\"}", "{\"b\":1}", "{\"a\":1,\"b\":2}", "{\"a\":[1]}", "{\"a\":{\"c\":1}}"];
+    let mut t: Vec<String> = Vec::new();
+    for x in base {
+        t.push(format!("[{x}]"));
+        for y in base {
+            t.push(format!("[{x},{y}]"));
+            t.push(format!("{{\"a\":{x},\"b\":{y}}}"));
+            for z in base {
+                t.push(format!("[{x},{y},{z}]"));
+            }
+        }
+    }
+    for x in objs {
+        for y in objs {
+            t.push(format!("[{x},{y}]"));
+            for z in objs {
+                t.push(format!("[{x},{y},{z}]"));
+            }
+        }
+    }
+    let two: Vec<String> = base.iter().flat_map(|x| base.iter().map(move |y| format!("[{x},{y}]"))).collect();
+    for (i, p) in two.iter().enumerate() {
+        for (j, q) in two.iter().enumerate() {
+            if (i + j) % 3 == 0 {
+                t.push(format!("[{p},{q}]"));
+            }
+        }
+    }
+    t.iter().map(|x| parse_j(x)).collect()
 }
 
 /// arrays whose elements are equal up to ONE nested optional flag or one nested Null (`[]` is an optional array of
